@@ -1,6 +1,7 @@
 package keeper
 
 import (
+	"math/bits"
 	"strconv"
 
 	assetTypes "github.com/comdex-official/comdex/x/asset/types"
@@ -132,12 +133,14 @@ func (k Keeper) UpdatePriceList(ctx sdk.Context, id, scriptID, rate, twaBatch ui
 }
 
 func (k Keeper) CalculateTwa(ctx sdk.Context, twa types.TimeWeightedAverage, twaBatch uint64) uint64 {
-	var sum uint64
+	// the window is summed in 128 bits: hi < twaBatch always holds, so Div64 cannot overflow
+	var hi, lo, carry uint64
 	oldTwa := twa.Twa
 	for i := 0; i < int(twaBatch); i++ {
-		sum = sum + twa.PriceValue[i]
+		lo, carry = bits.Add64(lo, twa.PriceValue[i], 0)
+		hi += carry
 	}
-	twa.Twa = sum / twaBatch
+	twa.Twa, _ = bits.Div64(hi, lo, twaBatch)
 
 	if oldTwa != twa.Twa {
 		ctx.EventManager().EmitEvents(sdk.Events{
